@@ -113,3 +113,47 @@ package stor
 //@   ensures! r == buf[0] + 256 * buf[1] + 65536 * buf[2] + 16777216 * buf[3] + 4294967296 * buf[4]
 
 //@ lemma! smalloffset_roundtrip(n uint64): n < 1099511627776 ==> byteAt(n, 0) + 256 * byteAt(n, 1) + 65536 * byteAt(n, 2) + 16777216 * byteAt(n, 3) + 4294967296 * byteAt(n, 4) == n
+
+//@ property C18
+// ---- allocation arithmetic (sequential model of the atomic operations) -----------------------
+// chunk k covers offsets [k<<shift, (k+1)<<shift); the allocation cursor `size`
+// lies in the current allocation chunk
+//@ spec storInv(s *Stor) bool = 0 < s.shift && s.shift < 40 && s.chunksize == pow2(s.shift) && typeis(s.chunks.v, "[][]byte") && 0 <= s.allocChunk.v && s.allocChunk.v < 1000000 && len(unbox(s.chunks.v, "[][]byte")) == s.allocChunk.v + 1 && (forall k :: 0 <= k && k < len(unbox(s.chunks.v, "[][]byte")) ==> len(unbox(s.chunks.v, "[][]byte")[k]) == s.chunksize) && uint64(s.allocChunk.v) << uint64(s.shift) <= s.size.v && s.size.v <= (uint64(s.allocChunk.v) + 1) << uint64(s.shift)
+
+//@ func (s *Stor) offsetToChunk(offset) (r)
+//@   mode bv
+//@   requires s != nil && 0 < s.shift && s.shift < 40 && offset < 4611686018427387904
+//@   ensures! r == int(offset >> uint64(s.shift))
+
+//@ func (s *Stor) Data(offset) (r)
+//@   mode bv
+//@   requires s != nil && storInv(s) && offset < (uint64(s.allocChunk.v) + 1) << uint64(s.shift)
+//@   ensures! inside: len(r) == s.chunksize - (offset & (s.chunksize - 1)) && ref(r) == ref(unbox(s.chunks.v, "[][]byte")[offset >> uint64(s.shift)]) && off(r) == off(unbox(s.chunks.v, "[][]byte")[offset >> uint64(s.shift)]) + (offset & (s.chunksize - 1))
+
+// the storage implementation hands out chunks of the configured size (assumed)
+//@ ghost var gChunkSize int
+//@ func (st storage) Get(chunk) (r)
+//@   assumed
+//@   ensures len(r) == gChunkSize && fresh(r)
+
+// storInv without the upper bound on the cursor (a failed attempt has pushed it past the chunk end)
+//@ spec storInvW(s *Stor) bool = 0 < s.shift && s.shift < 40 && s.chunksize == pow2(s.shift) && s.chunksize == gChunkSize && typeis(s.chunks.v, "[][]byte") && 0 <= s.allocChunk.v && s.allocChunk.v < 1000000 && len(unbox(s.chunks.v, "[][]byte")) == s.allocChunk.v + 1 && (forall k :: 0 <= k && k < len(unbox(s.chunks.v, "[][]byte")) ==> len(unbox(s.chunks.v, "[][]byte")[k]) == s.chunksize)
+
+//@ func (s *Stor) extend(allocChunk)
+//@   mode int
+//@   requires s != nil && s.impl != nil && storInvW(s) && allocChunk == s.allocChunk.v && allocChunk < 999999
+//@   modifies all
+//@   ensures! extended: storInvW(s) && s.allocChunk.v == allocChunk + 1 && s.size.v == uint64(allocChunk + 1) << uint64(s.shift) && s.shift == old(s.shift) && s.chunksize == old(s.chunksize)
+//@   ensures! old_chunks_kept: forall k :: 0 <= k && k <= allocChunk ==> unbox(s.chunks.v, "[][]byte")[k] == old(unbox(s.chunks.v, "[][]byte")[k])
+
+// Alloc: the returned window [offset, offset+n) lies inside one existing chunk,
+// starts at or after the previous cursor, and the slice has exactly n bytes of capacity
+//@ func (s *Stor) Alloc(n) (offset, buf)
+//@   mode bv
+//@   requires s != nil && s.impl != nil && storInv(s) && s.allocChunk.v < 999999 && s.chunksize == gChunkSize && 0 < n && n <= s.chunksize
+//@   modifies all
+//@   ensures! inv: storInv(s) && s.shift == old(s.shift) && s.chunksize == old(s.chunksize)
+//@   ensures! window: offset + uint64(n) == s.size.v && offset >= old(s.size.v)
+//@   ensures! no_straddle: (offset >> uint64(s.shift)) == ((offset + uint64(n) - 1) >> uint64(s.shift)) && int64(offset >> uint64(s.shift)) == s.allocChunk.v
+//@   ensures! exact_slice: len(buf) == n && cap(buf) == n && ref(buf) == ref(unbox(s.chunks.v, "[][]byte")[offset >> uint64(s.shift)]) && off(buf) == off(unbox(s.chunks.v, "[][]byte")[offset >> uint64(s.shift)]) + (offset & (s.chunksize - 1))
+//@   loop 0 unroll 3
